@@ -5,7 +5,7 @@ from . import inputs, hist
 PROP = 'C10'
 LEVEL = 'exploration'
 WALL_CAP = {'quick': 200, 'thorough': 2400}
-RUNS = {'quick': 2500, 'thorough': 40000}
+RUNS = {'quick': 6000, 'thorough': 60000}
 SKINNED_SAMPLES = ['in/Skinned_OB', 'in/Skinned_SE', 'in/Skinned_Dynamic_SE', 'in/Optimize_LE_to_SE', 'in/Optimize_SE_to_LE',
                    'in/Optimize_Dynamic_LE_to_SE', 'in/Optimize_Dynamic_SE_to_LE', 'in/Skinned_NoNiSkinDataWeights', 'in/Animated_LE']
 RULE = ('one run = skinned model (sample, or built through the API for OB/FO3/SK/SSE with 1..120 bones and 0..6 weights per vertex) + 1..8 steps of '
@@ -57,8 +57,17 @@ def gen_plan(seed, i, tier):
     return {'property': PROP, 'profile': 'mesh', 'run_index': i, 'init': init, 'steps': steps, 'timeout_s': 60}
 
 
+def _with_faults(plan, seed, i):
+    # a quarter of the restarts first lose a save attempt to a failing stream (disk full / EIO after k bytes), then retry
+    r = Rng(seed, PROP, 'wfail', i)
+    for st in plan['steps']:
+        if st.get('op') == 'Restart' and r.chance(0.25):
+            st['fail_first'] = r.weighted([(r.below(400), 2), (r.below(20000), 3)])
+    return plan
+
+
 def jobs(tier, seed, pool):
-    return [{'plan': gen_plan(seed, i, tier), 'meta': {}} for i in range(RUNS[tier])]
+    return [{'plan': _with_faults(gen_plan(seed, i, tier), seed, i), 'meta': {}} for i in range(RUNS[tier])]
 
 
 account = hist.account
